@@ -81,7 +81,12 @@ class Sim:
             args = [ev.ev(a) for a in call.args]
             kwargs = {k.arg: ev.ev(k.value) for k in call.keywords}
             self.sent.append((args[0], args[1], args[2], kwargs))
-            self.tasks.append(("data", me.peer, args[0], args[1], args[2]))
+            # what the real _send() does with the per-stream sequence counter (rule C01-FRAG decides _send itself)
+            ordered = kwargs.get("ordered", True) if len(args) < 6 else args[5]
+            seq = me._outbound_stream_seq.get(args[0], 0) if ordered else None
+            if ordered:
+                me._outbound_stream_seq[args[0]] = (seq + 1) % 65536
+            self.tasks.append(("data", me.peer, args[0], args[1], args[2], seq))
             return None
         if name == "self._send_reconfig_param":
             self.tasks.append(("reconfig", me.peer, ev.ev(call.args[0])))
@@ -140,7 +145,19 @@ class Sim:
             if job[0] == "task":
                 self.hook.run_method(self.method(self.tcls, job[2]), job[1], [], {})
             elif job[0] == "data":
-                self.hook.run_method(self.method(self.tcls, "_data_channel_receive"), job[1], [job[2], job[3], job[4]], {})
+                peer, sid, seq = job[1], job[2], (job[5] if len(job) > 5 else None)
+                if seq is None:
+                    self.hook.run_method(self.method(self.tcls, "_data_channel_receive"), peer, [sid, job[3], job[4]], {})
+                else:
+                    # ordered delivery of the receiving stream: in sequence, starting at 0 for a stream without state (a reset removes the state)
+                    st = peer._inbound_streams.get(sid)
+                    if st is None:
+                        st = peer._inbound_streams[sid] = SimpleNamespace(sequence_number=0, held={}, reassembly=[])
+                    st.held[seq] = (job[3], job[4])
+                    while st.sequence_number in st.held:
+                        ppid, data = st.held.pop(st.sequence_number)
+                        st.sequence_number = (st.sequence_number + 1) % 65536
+                        self.hook.run_method(self.method(self.tcls, "_data_channel_receive"), peer, [sid, ppid, data], {})
             elif job[0] == "reconfig":
                 self.hook.run_method(self.method(self.tcls, "_receive_reconfig_param"), job[1], [job[2]], {})
 
@@ -414,6 +431,41 @@ def run_life(rep: Report, prog: Program, tier: str) -> None:
             p.append(f"{events_of(ch, 'close')} close events after a repeated transition to closed")
         return p
     scenario("send() only while open; repeated transitions are silent", fn_send_guard)
+
+    # 8b. send() and close() in the same tick, then the freed id is used again
+    def fn_send_then_close(sim: Sim, congested: bool) -> List[str]:
+        a, b = sim.pair()
+        ch = sim.create(a, label="first")
+        sim.pump()
+        cid = sim.get(ch, "id")
+        sim.call(ch, "send", "one")
+        if not congested:
+            sim.pump()
+        sim.call(ch, "send", "last words")
+        sim.call(ch, "close")
+        sim.pump()
+        p = []
+        r = [x for x in remote_of(sim, b) if sim.get(x, "id") == cid]
+        if sim.get(ch, "readyState") != "closed" or not r or sim.get(r[0], "readyState") != "closed":
+            p.append(f"after send() + close() the channel is {sim.get(ch, 'readyState')} / the peer's is {sim.get(r[0], 'readyState') if r else 'missing'}")
+        ch2 = sim.create(a, label="second")
+        sim.pump()
+        if sim.get(ch2, "id") != cid:
+            p.append(f"the freed id {cid} is not reused (got {sim.get(ch2, 'id')})")
+        if sim.get(ch2, "readyState") != "open":
+            p.append(f"the channel that reuses id {cid} is {sim.get(ch2, 'readyState')}: its DATA_CHANNEL_OPEN does not reach the peer in sequence (stream sequence numbers of the old and the new channel disagree)")
+        seen = [sim.get(x, "label") for x in remote_of(sim, b) if sim.get(x, "id") == cid]
+        if seen != ["first", "second"]:
+            p.append(f"datachannel events on the peer for id {cid}: {seen}")
+        else:
+            sim.call(ch2, "send", "hello again")
+            sim.pump()
+            r2 = [x for x in remote_of(sim, b) if sim.get(x, "label") == "second"][0]
+            if [e[1] for e in r2.events if e[0] == "message"] != ["hello again"]:
+                p.append("a message on the channel that reuses the id is not delivered")
+        return p
+    scenario("send() and close() in the same tick, then the id is reused", lambda sim: fn_send_then_close(sim, False))
+    scenario("two send() and close() in the same tick, then the id is reused", lambda sim: fn_send_then_close(sim, True))
 
     # 9. channels created and closed before the association is up; the association is "established" twice (repeated COOKIE-ECHO)
     def fn_before_up(sim: Sim, explicit_id: Optional[int]) -> List[str]:
